@@ -22,6 +22,7 @@ RULE = ("case = (spatially periodic spacetime member, input style {tensors, "
 ASSUMPTIONS = ["fresh-instance oracle: same inputs, eviction disabled, single request",
                "tier (ii) accepts differences that converge away at rate >= 2^(p-2)"]
 TIMEOUT = {"quick": 2400, "thorough": 9000}
+MEM_GB = 2.5
 MIN_NONTRIVIAL = {"quick": 120, "thorough": 1500}
 
 STYLES = ['tensor', 'components', 'fluid0', 'tensor', 'solution', 'vacuum']
